@@ -365,6 +365,32 @@ def check_revcomp(ctx, f, t, nd):
     ops = []
     x = t
     base = None
+    if t[0] == 'v' and isinstance(t[2], tuple):
+        # the tested needle is accumulated in a loop.  If the accumulator is started OUTSIDE the loop over the motifs, the needle
+        # of motif i is built from motifs 1..i (a stale value carried from one iteration to the next)
+        by_id = {d.id: d for d in f.defs}
+        for did in t[2]:
+            d = by_id.get(did)
+            if d is None or d.value is None or not any(isinstance(n, ast.Name) and n.id == t[1] for n in ast.walk(d.value)):
+                continue
+            dn = f.nodes[d.node]
+            at = f.term(ast.Name(id=t[1], ctx=ast.Load()), dn)
+            reach = at[2] if at[0] == 'v' and isinstance(at[2], tuple) else ()
+            for L in nd.loops:
+                if L not in dn.loops:
+                    continue
+                it = f.nodes[L].stmt.iter if isinstance(f.nodes[L].stmt, ast.For) else None
+                if it is None or 'undesired_motifs' not in ast.unparse(it):
+                    continue
+                outside = [by_id[r] for r in reach if r in by_id and L not in f.nodes[by_id[r].node].loops]
+                if outside and did in reach:
+                    run.refute('R-FILTER', f, 'complement-of-the-motif', dn.lineno,
+                               'the tested reverse complement `%s` is accumulated at line %d from its previous value, and it is started '
+                               '(line %d) outside the loop over the motifs: from the second motif on it still carries the complement '
+                               'of the earlier motifs and the reverse complement of that motif alone is never tested'
+                               % (t[1], dn.lineno, f.nodes[outside[0].node].lineno),
+                               inputs='two or more undesired motifs; strings containing the reverse complement of any but the first')
+                    return
     while True:
         if x[0] == 'call' and x[1][0] == 'attr' and x[1][2] in ('upper', 'lower') and not x[2]:
             ops.append((x[1][2],))
